@@ -183,6 +183,8 @@ def normRatios (n : Nat) (p pb : Prof) : List Ratio :=
 
 /-- `p.Normalize(pb)` (sample types already checked equal by the caller). -/
 def normalize (n : Nat) (p pb : Prof) : Outcome Prof := scaleN (normRatios n p pb) n p
+/-- the same with the survival rule of the pinned tree. -/
+def normalizePinned (n : Nat) (p pb : Prof) : Outcome Prof := scaleNPinned (normRatios n p pb) n p
 
 /-! ## sample types: alignment and unit harmonisation -/
 
@@ -283,8 +285,11 @@ def unitRatio (src dst : UnitT) : Ratio :=
 def transpose (n : Nat) (rows : List (List ColT)) : List (List ColT) :=
   (List.range n).map (fun i => rows.filterMap (fun r => r[i]?))
 
+/-- the `ScaleN` in use: `scaleN` (repaired) or `scaleNPinned`. -/
+abbrev ScaleFn := List Ratio → Nat → Prof → Outcome Prof
+
 /-- `measurement.ScaleProfiles` on sample types and values (period type not modelled). -/
-def scaleProfiles (ps : List TProf) : Outcome (List TProf) :=
+def scaleProfilesWith (sc : ScaleFn) (ps : List TProf) : Outcome (List TProf) :=
   match ps with
   | [] => .ok []
   | p0 :: _ =>
@@ -302,17 +307,19 @@ def scaleProfiles (ps : List TProf) : Outcome (List TProf) :=
         let cols := pairs.map (fun (c, m) => match m with
           | none => c
           | some d => { c with unit := d.unit })
-        match scaleN ratios p.cols.length p.samples with
+        match sc ratios p.cols.length p.samples with
         | .ok ss => .ok ⟨cols, ss⟩
         | .err e => .err e
         | .panic e => .panic e) ps
 
+def scaleProfiles : List TProf → Outcome (List TProf) := scaleProfilesWith scaleN
+
 /-- `combineProfiles`: align types, harmonise units, merge. -/
-def combineT (ps : List TProf) : Outcome TProf :=
+def combineTWith (sc : ScaleFn) (ps : List TProf) : Outcome TProf :=
   match compatibilize ps with
   | .err e => .err e
   | .panic e => .panic e
-  | .ok qs => match scaleProfiles qs with
+  | .ok qs => match scaleProfilesWith sc qs with
     | .err e => .err e
     | .panic e => .panic e
     | .ok rs => match rs with
@@ -340,8 +347,9 @@ inductive Mode where | plain | base | diffBase
 
 /-- fetch.go `fetchProfiles` up to (and including) the final merge; `Scale(-1)` is exact here
 (the float path `scaleNeg1` agrees on `InF64`). -/
-def fetch (m : Mode) (norm : Bool) (srcs bases : List TProf) : Outcome TProf :=
-  match combineT srcs with
+def fetchWith (sc : ScaleFn) (nm : Nat → Prof → Prof → Outcome Prof) (m : Mode) (norm : Bool)
+    (srcs bases : List TProf) : Outcome TProf :=
+  match combineTWith sc srcs with
   | .err e => .err e
   | .panic e => .panic e
   | .ok p =>
@@ -349,7 +357,7 @@ def fetch (m : Mode) (norm : Bool) (srcs bases : List TProf) : Outcome TProf :=
     | .plain, _ => .ok p
     | _, [] => .ok p
     | _, _ =>
-      match combineT bases with
+      match combineTWith sc bases with
       | .err e => .err e
       | .panic e => .panic e
       | .ok pb0 =>
@@ -357,7 +365,7 @@ def fetch (m : Mode) (norm : Bool) (srcs bases : List TProf) : Outcome TProf :=
         let pn : Outcome TProf :=
           if norm then
             if p.cols != pb1.cols then .err "incompatible sample types"
-            else match normalize p.cols.length p.samples pb1.samples with
+            else match nm p.cols.length p.samples pb1.samples with
               | .ok ss => .ok ⟨p.cols, ss⟩
               | .err e => .err e
               | .panic e => .panic e
@@ -365,6 +373,12 @@ def fetch (m : Mode) (norm : Bool) (srcs bases : List TProf) : Outcome TProf :=
         match pn with
         | .err e => .err e
         | .panic e => .panic e
-        | .ok p' => combineT [p', ⟨pb1.cols, neg pb1.samples⟩]
+        | .ok p' => combineTWith sc [p', ⟨pb1.cols, neg pb1.samples⟩]
+
+def combineT : List TProf → Outcome TProf := combineTWith scaleN
+def fetch : Mode → Bool → List TProf → List TProf → Outcome TProf := fetchWith scaleN normalize
+/-- the pipeline with the survival rule of the pinned tree (known finding: used by the harness to
+recognise exactly the consequences of that defect). -/
+def fetchPinned : Mode → Bool → List TProf → List TProf → Outcome TProf := fetchWith scaleNPinned normalizePinned
 
 end PV.Combine
